@@ -4,6 +4,7 @@ import (
 	"bytes"
 	"context"
 	"fmt"
+	"strings"
 	"sync"
 	"time"
 
@@ -119,7 +120,7 @@ type Corruption struct {
 // ByzKinds lists the corruption kinds per RPC.
 var ByzKinds = map[string][]string{
 	"headers":       {"break-link", "low-work", "timestamp-past", "extra-remaining", "empty-with-remaining", "duplicate", "wrong-type", "garbage", "close"},
-	"blocks":        {"other-branch", "body-swap", "drop-txns", "too-few", "too-many", "reorder", "wrong-type", "garbage", "close", "foreign-last"},
+	"blocks":        {"other-branch", "body-swap", "drop-txns", "too-few", "too-many", "reorder", "wrong-type", "garbage", "close", "foreign-last", "body-swap+hangup", "drop-txns+hangup"},
 	"checkpoint":    {"non-v2", "wrong-id", "state-field", "state-work", "recommit", "wrong-type", "garbage", "close", "two-payouts", "payout-value", "v2-height"},
 	"relay-header":  {"low-work", "unknown-parent"},
 	"relay-outline": {"low-work", "invalid-child", "wrong-missing", "no-missing", "txn-altered", "unknown-parent"},
@@ -279,7 +280,9 @@ func (b *ByzPeer) Handle(id types.Specifier, s *gateway.Stream) {
 		}
 		k := modn(b.Corr.Arg, len(blocks))
 		applied := true
-		switch b.Corr.Kind {
+		kind, hangup := strings.CutSuffix(b.Corr.Kind, "+hangup")
+		idBefore := blocks[k].ID()
+		switch kind {
 		case "other-branch":
 			alt, _ := b.Alt.BlocksForHistory(r.History, r.Max)
 			if len(alt) == 0 || (len(alt) == len(blocks) && alt[len(alt)-1].ID() == blocks[len(blocks)-1].ID()) {
@@ -345,12 +348,23 @@ func (b *ByzPeer) Handle(id types.Specifier, s *gateway.Stream) {
 		}
 		if applied {
 			b.count(b.applied, "blocks")
+			if (kind == "body-swap" || kind == "drop-txns") && k < len(blocks) && blocks[k].ID() == idBefore {
+				// another body under an unchanged (v2) id: passes every id check,
+				// core rejects the block
+				b.count(b.applied, "blocks:same-id-invalid-body")
+			}
 		} else {
 			b.noteOffered(blocks)
 			b.count(b.served, "blocks")
 		}
 		r.Blocks, r.Remaining = blocks, rem
 		s.WriteResponse(r)
+		if hangup && applied {
+			// deliver, then hang up before the receiver gets round to judging it
+			s.Close()
+			time.Sleep(300 * time.Microsecond)
+			b.CloseConns()
+		}
 
 	case *gateway.RPCSendCheckpoint:
 		if s.ReadRequest(r) != nil {
